@@ -264,6 +264,26 @@ func unmarshalJSONInternal(
 	return datatree, nil
 }
 
+// jsonInteger gives the JSON number for a YANG integer value.  A valid
+// YANG lexical form may carry an explicit '+' and leading zeros ("+5",
+// "007"), neither of which a JSON number can have.
+func jsonInteger(value string) string {
+	neg := strings.HasPrefix(value, "-")
+	digits := strings.TrimLeft(strings.TrimLeft(value, "+-"), "0")
+	if digits == "" {
+		return "0"
+	}
+	for _, c := range digits {
+		if c < '0' || c > '9' {
+			return value // not an integer: leave it as it is
+		}
+	}
+	if neg {
+		return "-" + digits
+	}
+	return digits
+}
+
 func (jw *JSONWriter) writeValue(sn schema.Node, value string) {
 	switch tt := sn.Type().(type) {
 	case schema.Empty:
@@ -276,20 +296,20 @@ func (jw *JSONWriter) writeValue(sn schema.Node, value string) {
 		// Write the raw value out as a native JSON type
 		jw.WriteString(value)
 	case schema.Uinteger:
-		// Write the raw value out as a native JSON type
+		// Write the value out as a native JSON type
 		if jw.rfc7951 && tt.BitWidth() > 32 {
 			buf, _ := json.Marshal(value)
 			jw.Write(buf)
 		} else {
-			jw.WriteString(value)
+			jw.WriteString(jsonInteger(value))
 		}
 	case schema.Integer:
-		// Write the raw value out as a native JSON type
+		// Write the value out as a native JSON type
 		if jw.rfc7951 && tt.BitWidth() > 32 {
 			buf, _ := json.Marshal(value)
 			jw.Write(buf)
 		} else {
-			jw.WriteString(value)
+			jw.WriteString(jsonInteger(value))
 		}
 	default:
 		// Treat as a string, with appropriate escaping and quotes.
